@@ -293,3 +293,9 @@ W('C03-W-accessible-any-input', 'C03', 'C03.f', (LM, "            set(l.get_from
 W('C18-W-container-remove-no-notify', 'C18', 'C18.e', (LA, "            self.artists.remove(artist)\n            artist.remove()\n            self._notify()", "            self.artists.remove(artist)\n            artist.remove()"))
 W('C18-W-container-append-notify-conditional', 'C18', 'C18.e', (LA, "        artist.zorder = max(a.zorder for a in self.artists) + 1\n        self._notify()", "        artist.zorder = max(a.zorder for a in self.artists) + 1\n        if len(self.artists) > 1:\n            self._notify()"))
 W('C16-W-scalar-bounds-kept', 'C16', 'C16.c', (FRB, "        if isinstance(bound, tuple):\n            slices.append(slice(None))\n        else:\n            slices.append(0)", "        slices.append(slice(None))"))
+
+# ------------------------------------------------------------------ C02.g / C17.g
+W('C02-W-load-data-skips-derived', 'C02', 'C02.g', (STATE, "                comps[icomp] = (cid, comp)\n\n        result.add_component(comp, cid)\n\n    assert result._world_component_ids == []\n\n    coord = [c for c in comps if isinstance(c[1], CoordinateComponent)]\n    coord = [x[0] for x in sorted(coord, key=lambda x: x[1])]\n\n    if getattr(result, 'coords') is not None:", "                comps[icomp] = (cid, comp)\n\n        if not isinstance(comp, DerivedComponent):\n            result.add_component(comp, cid)\n\n    assert result._world_component_ids == []\n\n    coord = [c for c in comps if isinstance(c[1], CoordinateComponent)]\n    coord = [x[0] for x in sorted(coord, key=lambda x: x[1])]\n\n    if getattr(result, 'coords') is not None:"))
+W('C02-W-save-collection-drops-groups', 'C02', 'C02', (STATE, "                components=list(map(context.id, components)),\n                groups=list(map(context.id, dc.subset_groups)),\n                subset_group_count=dc._sg_count)", "                components=list(map(context.id, components)),\n                subset_group_count=dc._sg_count)"))
+W('C17-W-pixel-created-always', 'C17', 'C17.g', (DATA, "        if len(self._components) == 0:\n            # TODO: make sure the following doesn't raise a componentsraised message\n            self._create_pixel_and_world_components(ndim=component.ndim)", "        if len(self._components) <= 1:\n            # TODO: make sure the following doesn't raise a componentsraised message\n            self._create_pixel_and_world_components(ndim=component.ndim)"))
+W('C17-W-world-axis-index-0', 'C17', 'C17.g', (DATA, "                    comp = CoordinateComponent(self, i, world=True)", "                    comp = CoordinateComponent(self, 0, world=True)"))
